@@ -33,6 +33,28 @@ Placement(w) == [i \in 1..w.nsh |-> {<<x.h, x.state>> : x \in R(w.shards[i].stat
 Gap(w1, w2) ==
   {t \in TargetsW(w1) : t \in R(w1.disc) /\ t \in R(w2.disc) /\ HoldersW(w1, t) # {} /\ HoldersW(w2, t) = {}}
 
+\* C05, history form, on counters the harness keeps itself (steps[k].real[i]: per target h on shard i, n = proxied scrapes
+\* completed since h was assigned there, m = since it was marked in-transfer there): when a cycle takes an in-transfer
+\* copy away from a shard that stays, while the target stays discovered and a normal copy exists elsewhere (a move, not
+\* the two-in-transfer-copies leftover), some normal copy has really been scraped three times and so has the source
+\* since the move began - whatever the sidecars reported.
+RealOf(st, i, t) == LET S == {x \in R(st.real[i]) : x.h = t} IN IF S = {} THEN [h |-> t, n |-> 0, m |-> 0] ELSE CHOOSE x \in S : TRUE
+StateIn(w, i, t) == LET S == {x \in R(w.shards[i].status) : x.h = t} IN IF S = {} THEN "absent" ELSE (CHOOSE x \in S : TRUE).state
+C05Run(run) ==
+  {[f |-> "source-dropped-before-hand-over", t |-> p[2], at |-> p[1], src |-> p[3],
+    srcSinceMove |-> RealOf(run.steps[p[1] - 1], p[3], p[2]).m,
+    destScrapes |-> [d \in 1..run.steps[p[1] - 1].world.nsh |-> RealOf(run.steps[p[1] - 1], d, p[2]).n]] :
+     p \in {p \in (2..Len(run.steps)) \X TargetsW(run.steps[1].world) \X (1..8) :
+             LET k == p[1] t == p[2] i == p[3]
+                 w1 == run.steps[k - 1].world  w2 == run.steps[k].world
+             IN /\ run.steps[k].a = "cycle"
+                /\ i <= w1.nsh /\ i <= w2.nsh
+                /\ t \in R(w1.disc) /\ t \in R(w2.disc)
+                /\ StateIn(w1, i, t) = "in_transfer" /\ StateIn(w2, i, t) = "absent"
+                /\ \E d \in (1..w1.nsh) \ {i} : StateIn(w1, d, t) = ""
+                /\ ~(/\ RealOf(run.steps[k - 1], i, t).m >= 3
+                      /\ \E d \in (1..w1.nsh) \ {i} : StateIn(w1, d, t) = "" /\ RealOf(run.steps[k - 1], d, t).n >= 3)}}
+
 \* the run: steps[k].world; quietFrom: first step of the fault-free, change-free tail; lastCycles: positions of the tail's cycles
 C03Run(run) ==
   LET n == Len(run.steps)
